@@ -38,6 +38,12 @@ def variant_forms(rng, spec):
     for a in spec['assets']:
         if rng.random() < 0.5:
             a['_date_form'] = gen.pick(rng, ['datetime', 'timestamp', 'date'] + (['aware_utc', 'aware_utc', 'aware_other'] if spec['grid'].get('tz') else []))
+        if a['type'] in ('Plant', 'CHPAsset') and rng.random() < 0.4:
+            # a duration that is not a whole number of grid steps (rounded up at every set-up)
+            for kq in ('min_runtime', 'min_downtime'):
+                if a.get(kq) and rng.random() < 0.7:
+                    st_ = float(pd.Timedelta(pd.tseries.frequencies.to_offset(spec['grid']['freq'])) / pd.Timedelta(1, spec['grid']['unit']))
+                    a[kq] = gen.r2(a[kq] + gen.pick(rng, [0.5, 0.25]) * st_) if st_ >= 0.02 else a[kq]
         if a['type'] in ('Plant', 'CHPAsset') and rng.random() < 0.6:
             a['_seq_form'] = 'array'          # ramp profiles as numpy arrays (objects the user keeps and may reuse)
         if (a.get('min_take') or a.get('max_take')) and '_container' not in a and rng.random() < 0.4:
